@@ -20,7 +20,8 @@ META = {
              'e same downscaler object on other data types, permuted axes '
              'and chunk shapes whose intermediate shapes collide; huge: wh'
              'ole-volume sized arrays (> 2^25 voxels).'
-             " Round 12: non-dyadic outside values (mean just beside a tie)."),
+             " Round 12: non-dyadic outside values (mean just beside a tie)."
+             " Round 16: the result is read only after the same downscaler has processed another array of the same shape and type."),
     "trusted_base": ["vlib/refs/downscale_ref.py, dtype_ref.py (Fractions)"],
     "assumptions": ["finite values; float32 results compared within 1 ulp"],
 }
@@ -178,6 +179,10 @@ def check_case(ctx, case):
                     ctx.count("colliding_shape_warmups")
             out = ds.downscale(dsets.laid_out(arr, case.get("layout", "c")),
                                factors)
+            # the result stays in use while the same downscaler serves the
+            # next chunk of the same shape and type (other values)
+            ds.downscale(np.ascontiguousarray(
+                arr.reshape(-1)[::-1].reshape(arr.shape)), factors)
     except Exception as exc:
         ctx.fail("%s downscale%s of %s %s raised %s: %s" % (
             case["method"], factors, case["dtype"], shape,
